@@ -7,12 +7,18 @@ open PResult
 
 /-! ### STREAMINFO -/
 
-/-- STREAMINFO blocks that `stream_info` accepts (and that `StreamInfo::write` writes as they are). -/
+/-- STREAMINFO blocks that `stream_info` reads back IDENTICALLY from what `StreamInfo::write` writes.
+* block sizes: either set (`1 ≤ min ≤ max ≤ 32767`) or the initial "unset" pair `(65535, 0)` of a
+  `StreamInfo` that has not seen a frame (`total = 0`);
+* frame sizes: either real (`min ≤ max < 2^24`, not both 0) or the initial "unset" pair `(2^32-1, 0)`,
+  which `write` emits as `(0, 0)` ("unknown") and `stream_info` maps back to the initial pair.
+The pair `(0, 0)` itself is NOT read back identically (it is written as `(0, 0)` and comes back as the
+initial pair, see `streamInfo_read_zero`); no `StreamInfo` that saw a frame has it (a frame has ≥ 1 byte). -/
 structure InfoOk (s : StreamInfo) : Prop where
-  minBlock : 1 ≤ s.minBlock ∧ s.minBlock ≤ 32767
-  maxBlock : 1 ≤ s.maxBlock ∧ s.maxBlock ≤ 32767
-  blocks : s.minBlock ≤ s.maxBlock
-  frames : s.minFrame ≤ s.maxFrame ∧ s.maxFrame < 2 ^ 24
+  blocks : (1 ≤ s.minBlock ∧ s.minBlock ≤ s.maxBlock ∧ s.maxBlock ≤ 32767) ∨
+    (s.total = 0 ∧ s.minBlock = 65535 ∧ s.maxBlock = 0)
+  frames : (s.minFrame ≤ s.maxFrame ∧ s.maxFrame < 2 ^ 24 ∧ 0 < s.maxFrame) ∨
+    (s.minFrame = 2 ^ 32 - 1 ∧ s.maxFrame = 0)
   rate : s.rate ≤ 96000
   channels : 1 ≤ s.channels ∧ s.channels ≤ 8
   bps : s.bps = 8 ∨ s.bps = 12 ∨ s.bps = 16 ∨ s.bps = 20 ∨ s.bps = 24
@@ -20,12 +26,20 @@ structure InfoOk (s : StreamInfo) : Prop where
   md5len : s.md5.length = 16
   md5 : ∀ b ∈ s.md5, b < 256
 
-theorem streamInfo_read (s : StreamInfo) (h : InfoOk s) (k : Bits) (hk : k.length % 8 = 0) :
-    streamInfo (s.bits ++ k) = .ok (s, k) := by
-  obtain ⟨⟨hmin1, hmin2⟩, ⟨hmax1, hmax2⟩, hbl, ⟨hfr1, hfr2⟩, hrate, ⟨hch1, hch2⟩, hbps, htot, hml, hmd⟩ := h
-  unfold StreamInfo.bits
-  have hnf : ¬ s.minFrame > s.maxFrame := by omega
-  simp only [hnf, if_false, List.append_assoc]
+/-- `stream_info` on the STREAMINFO fields with frame sizes `(mn, mx)` on the wire: `r` is the record
+with the frame sizes `stream_info` assigns (`(0, 0)` ↦ the initial pair, anything else as it is). -/
+theorem streamInfo_fields (s : StreamInfo) (mn mx : Nat) (k : Bits) (hk : k.length % 8 = 0)
+    (hblocks : (1 ≤ s.minBlock ∧ s.minBlock ≤ s.maxBlock ∧ s.maxBlock ≤ 32767) ∨
+      (s.total = 0 ∧ s.minBlock = 65535 ∧ s.maxBlock = 0))
+    (hframes : (mn ≤ mx ∧ mx < 2 ^ 24 ∧ 0 < mx ∧ s.minFrame = mn ∧ s.maxFrame = mx) ∨
+      (mn = 0 ∧ mx = 0 ∧ s.minFrame = 2 ^ 32 - 1 ∧ s.maxFrame = 0))
+    (hrate : s.rate ≤ 96000) (hch : 1 ≤ s.channels ∧ s.channels ≤ 8)
+    (hbps : s.bps = 8 ∨ s.bps = 12 ∨ s.bps = 16 ∨ s.bps = 20 ∨ s.bps = 24)
+    (htot : s.total < 2 ^ 36) (hml : s.md5.length = 16) (hmd : ∀ b ∈ s.md5, b < 256) :
+    streamInfo (natToBits 16 s.minBlock ++ (natToBits 16 s.maxBlock ++ (natToBits 24 mn ++ (natToBits 24 mx ++
+      (natToBits 20 s.rate ++ (natToBits 3 (s.channels - 1) ++ (natToBits 5 (s.bps - 1) ++ (natToBits 36 s.total ++
+      (bytesToBits s.md5 ++ k))))))))) = .ok (s, k) := by
+  obtain ⟨hch1, hch2⟩ := hch
   unfold streamInfo
   rw [show (16 : Nat) = 8 * 2 from rfl, show (24 : Nat) = 8 * 3 from rfl]
   rw [beUint_natToBits 2 _ _ (by omega)]
@@ -60,7 +74,39 @@ theorem streamInfo_read (s : StreamInfo) (h : InfoOk s) (k : Bits) (hk : k.lengt
   rw [if_neg (by simp [hv.1, hv.2]), passert_ok _ _ (by simp [hml])]
   simp only [ok_bind]
   rw [if_neg (by omega), if_neg (by omega), if_neg (by omega), if_neg (by omega)]
-  rfl
+  rcases hframes with ⟨_, _, hpos, hmn, hmx⟩ | ⟨hmn0, hmx0, hmn, hmx⟩
+  · rw [if_neg (by omega), ← hmn, ← hmx]
+    rfl
+  · rw [if_pos ⟨hmn0, hmx0⟩]
+    simp only [← hmn, ← hmx]
+    rfl
+
+theorem streamInfo_read (s : StreamInfo) (h : InfoOk s) (k : Bits) (hk : k.length % 8 = 0) :
+    streamInfo (s.bits ++ k) = .ok (s, k) := by
+  obtain ⟨hblocks, hframes, hrate, hch, hbps, htot, hml, hmd⟩ := h
+  unfold StreamInfo.bits
+  rcases hframes with ⟨h1, h2, h3⟩ | ⟨h1, h2⟩
+  · have hnf : ¬ s.minFrame > s.maxFrame := by omega
+    simp only [hnf, if_false, List.append_assoc]
+    exact streamInfo_fields s _ _ k hk hblocks (Or.inl ⟨h1, h2, h3, rfl, rfl⟩) hrate hch hbps htot hml hmd
+  · have hf : s.minFrame > s.maxFrame := by omega
+    simp only [hf, if_true, List.append_assoc]
+    exact streamInfo_fields s 0 0 k hk hblocks (Or.inr ⟨rfl, rfl, h1, h2⟩) hrate hch hbps htot hml hmd
+
+/-- The corner excluded by `InfoOk`: frame sizes `(0, 0)` ("unknown" on the wire).  They are written as
+`(0, 0)` and `stream_info` leaves the frame sizes of the new `StreamInfo` in their initial state
+`(2^32-1, 0)`; everything else is read back. Likewise every other pair with `min > max`. -/
+theorem streamInfo_read_zero (s : StreamInfo) (h : InfoOk { s with minFrame := 2 ^ 32 - 1, maxFrame := 0 })
+    (hz : (s.minFrame = 0 ∧ s.maxFrame = 0) ∨ s.minFrame > s.maxFrame)
+    (k : Bits) (hk : k.length % 8 = 0) :
+    streamInfo (s.bits ++ k) = .ok ({ s with minFrame := 2 ^ 32 - 1, maxFrame := 0 }, k) := by
+  have hbits : s.bits = ({ s with minFrame := 2 ^ 32 - 1, maxFrame := 0 } : StreamInfo).bits := by
+    unfold StreamInfo.bits
+    rcases hz with ⟨h1, h2⟩ | h1
+    · simp [h1, h2]
+    · simp [h1]
+  rw [hbits]
+  exact streamInfo_read _ h k hk
 
 
 /-! ### metadata blocks -/
